@@ -52,6 +52,17 @@ Copy(i, j) ==
     /\ insts' = [insts EXCEPT ![j] = [cls |-> insts[i].cls, m |-> [M(i) EXCEPT !.out = RetOut(NoRes)]]]
     /\ UNCHANGED classes
 
+\* the same, taken by a callback of i in the middle of a transition (an undo / persistence hook): the copy is a machine
+\* at rest in whatever state the model shows at that moment - nothing of what i is in the middle of, nothing i has queued
+CopyBusy(i, c, j) ==
+    /\ Born(i) /\ ~Born(j) /\ i # j /\ EnCbWrite(D(i), M(i), c)
+    /\ LET m == M(i) IN
+       insts' = [insts EXCEPT ![j] = [cls |-> insts[i].cls,
+                                      m |-> [m EXCEPT !.queue = IF m.cur = "" THEN <<InitTD>> ELSE <<>>, !.locked = FALSE,
+                                                      !.stack = <<>>, !.raising = FALSE, !.exc = NoExc, !.out = NoOut,
+                                                      !.ctor = FALSE]]]
+    /\ UNCHANGED classes
+
 ExtCall(i, ev, gv)  == Born(i) /\ OthersQuiet(i) /\ EnExtCall(D(i), M(i)) /\ Upd(i, DoExtCall(D(i), M(i), ev, gv))
 Activate(i, gv)     == Born(i) /\ OthersQuiet(i) /\ EnActivate(D(i), M(i)) /\ Upd(i, DoActivate(D(i), M(i), gv))
 WriteSetter(i, v)   == Born(i) /\ OthersQuiet(i) /\ Idle(M(i)) /\ Upd(i, DoWriteSetter(D(i), M(i), v))
